@@ -146,8 +146,8 @@ func (m *lightMetaOp) SubscribeCollectionEvent(taskID string, c api.CollectionEv
 func (m *lightMetaOp) SubscribePartitionEvent(taskID string, c api.PartitionEventConsumer) {}
 func (m *lightMetaOp) UnsubscribeEvent(taskID string, t api.WatchEventType) {
 	m.mu.Lock()
-	if t == api.CollectionEventType {
-		m.subs[taskID]--
+	if t == api.CollectionEventType && m.subs[taskID] > 0 {
+		m.subs[taskID]-- // (the real EtcdOp keeps one consumer per task id: removing a missing one is a no-op)
 	}
 	m.mu.Unlock()
 }
@@ -192,6 +192,7 @@ func newVEnv() *vEnv {
 	e.st = newVStore(e.fe)
 	metrics.VerifResetTaskNum()
 	e.cdc = e.newCDC()
+	e.install()
 	return e
 }
 
@@ -218,61 +219,44 @@ func (e *vEnv) newCDC() *MetaCDC {
 	return cdc
 }
 
-// ensureEntity pre-inserts a light ReplicateEntity for the target unless one is registered.
-func (e *vEnv) ensureEntity(uKey string) {
-	e.cdc.replicateEntityMap.Lock()
-	_, ok := e.cdc.replicateEntityMap.data[uKey]
-	e.cdc.replicateEntityMap.Unlock()
-	if ok {
-		return
-	}
+// install makes this environment the entity factory of the process (verif hook in newReplicateEntity):
+// whenever the real code needs a replication entity for a target it gets a light one, registered and
+// started exactly like the tail of newReplicateEntity does.
+func (e *vEnv) install() {
+	verifEntityFactory.Store(func(cdc *MetaCDC, info *meta.TaskInfo) (*ReplicateEntity, error) {
+		return e.newLightEntity(cdc, getTaskUniqueIDFromInfo(info)), nil
+	})
+}
+
+func (e *vEnv) newLightEntity(cdc *MetaCDC, uKey string) *ReplicateEntity {
 	cm := newLightCM()
 	mo := &lightMetaOp{subs: map[string]int{}}
 	ctx, cancel := context.WithCancel(context.Background())
 	w := cdcwriter.NewChannelWriter(e.down, &nopReplicateMeta{}, config.WriterConfig{MessageBufferSize: 4, Retry: config.RetrySettings{RetryTimes: 1, InitBackOff: 1, MaxBackOff: 1}}, map[string]map[string]uint64{}, "milvus")
+	cdc.replicateEntityMap.Lock()
+	defer cdc.replicateEntityMap.Unlock()
+	if ent, ok := cdc.replicateEntityMap.data[uKey]; ok {
+		cancel()
+		return ent
+	}
 	ent := &ReplicateEntity{
 		targetClient: fakedown.Target{D: e.down}, channelManager: cm, metaOp: mo, writerObj: w,
 		entityQuitFunc: cancel, mqDispatcher: e.mq, mqTTDispatcher: e.mq,
 		taskQuitFuncs: typeutil.NewConcurrentMap[string, func()](),
 	}
-	e.cdc.replicateEntityMap.Lock()
-	e.cdc.replicateEntityMap.data[uKey] = ent
-	e.cdc.replicateEntityMap.Unlock()
-	e.cdc.startReplicateAPIEvent(ctx, ent)
-	e.cdc.startReplicateDMLChannel(ctx, ent)
+	cdc.replicateEntityMap.data[uKey] = ent
+	cdc.startReplicateAPIEvent(ctx, ent)
+	cdc.startReplicateDMLChannel(ctx, ent)
 	e.entities = append(e.entities, &vEntity{uKey: uKey, ent: ent, cm: cm, mo: mo, cancel: cancel, ctx: ctx})
-}
-
-// dropIdleEntities removes entities the harness inserted that no task uses (a rejected create leaves one behind).
-func (e *vEnv) dropIdleEntities() {
-	e.cdc.replicateEntityMap.Lock()
-	for k, ent := range e.cdc.replicateEntityMap.data {
-		if ent.refCnt.Load() == 0 {
-			ent.entityQuitFunc()
-			delete(e.cdc.replicateEntityMap.data, k)
-		}
-	}
-	e.cdc.replicateEntityMap.Unlock()
+	return ent
 }
 
 func (e *vEnv) Create(req *request.CreateRequest) (*request.CreateResponse, error) {
-	if uKey := safeUKey(req); uKey != "" {
-		e.ensureEntity(uKey)
-	}
-	resp, err := e.cdc.Create(req)
-	e.dropIdleEntities()
-	return resp, err
+	return e.cdc.Create(req)
 }
 
 func (e *vEnv) Resume(taskID string) error {
-	e.cdc.cdcTasks.RLock()
-	t := e.cdc.cdcTasks.data[taskID]
-	e.cdc.cdcTasks.RUnlock()
-	if t != nil {
-		e.ensureEntity(getTaskUniqueIDFromInfo(t))
-	}
 	_, err := e.cdc.Resume(&request.ResumeRequest{TaskID: taskID})
-	e.dropIdleEntities()
 	return err
 }
 
@@ -286,20 +270,17 @@ func (e *vEnv) Delete(taskID string) error {
 	return err
 }
 
-// Restart: a new MetaCDC incarnation over the same store, then ReloadTask (entities pre-inserted for every persisted task).
+// Restart: the process dies and a new MetaCDC incarnation comes up over the same durable store.
 func (e *vEnv) Restart() {
 	for _, en := range e.entities {
 		en.cancel()
 	}
+	e.entities = nil // the old incarnation's resources died with the process
 	metrics.VerifResetTaskNum()
-	e.mq = fakemq.New(nil) // the old incarnation's stream registrations died with it
+	e.mq = fakemq.New(nil) // ... and so did its stream registrations
 	e.cdc = e.newCDC()
-	infos, _ := e.st.ti.Get(context.Background(), &meta.TaskInfo{}, nil)
-	for _, info := range infos {
-		e.ensureEntity(getTaskUniqueIDFromInfo(info))
-	}
+	e.install()
 	e.cdc.ReloadTask()
-	e.dropIdleEntities()
 }
 
 func (e *vEnv) close() {
